@@ -82,6 +82,13 @@ def check(sc, obs):
     if obs.get("cancel_delivered") and obs.get("task_end") != "cancelled" and not user_cleanup_fails:
         return (f"a cancellation was delivered at t={sc['cancel_at']} but the task ended {obs.get('task_end')!r} "
                 f"(block outcome {obs.get('outcome')!r})")
+    if obs.get("cancel_delivered") and obs.get("task_end") == "cancelled" and not user_cleanup_fails \
+            and (any(k in ("block", "respawn") for k in sc["spawned"]) or any(e == "spawner" for e, _ in sc["disps"])) \
+            and obs.get("task_end_time", 0) - sc["cancel_at"] > 3.0:
+        # every spawned task of the family ends at once when cancelled and no disposable step takes longer than 1s:
+        # a victim that only ends much later was waiting for spawned tasks to run to completion
+        return (f"cancelled at t={sc['cancel_at']} the task only ended at t={obs.get('task_end_time')}: the tasks it spawned in "
+                f"the scope were awaited to completion instead of being cancelled too")
     if obs.get("cancel_delivered") and obs.get("leaked"):
         return "the task was cancelled but tasks it spawned in the scope kept running"
     return None
